@@ -8,9 +8,13 @@ PROP = 'C10'
 
 def run(ctx):
     quick = ctx.quick()
-    nseg = 3
     lens = [0, 3, 16, 21] if quick else [0, 1, 7, 15, 16, 17, 24]
     aads = [0, 13] if quick else [0, 5, 16, 20]
+    run_chapoly(ctx, lens, aads)
+
+
+def run_chapoly(ctx, lens, aads, label='C10'):
+    nseg = 3
     ctx.note_source('lib/x86_64/chacha20_poly1305.c')
     ctx.bounds.update({'unit': 'init/update_enc/update_dec/finalize_chacha20_poly1305_sse (direct streaming API) of chacha20_poly1305.c',
                        'segments': '%d segments, each length in %s (every combination), AAD length in %s, both directions; message/AAD/key bytes and the stale context symbolic' % (nseg, lens, aads),
@@ -25,22 +29,38 @@ def run(ctx):
     gotocc(ctx, h, base, defs=['-DNSEG=%d' % nseg, '-DMAXSEG=%d' % max(lens)])
     basew = os.path.join(ctx.scratch, 'cpw.gb')
     gotocc(ctx, h, basew, defs=['-DNSEG=%d' % nseg, '-DMAXSEG=%d' % max(lens), '-DWITNESS'])
+    basej = os.path.join(ctx.scratch, 'cpj.gb')
+    gotocc(ctx, h, basej, defs=['-DNSEG=%d' % nseg, '-DMAXSEG=%d' % max(lens), '-DJOBPATH'])
+    basejw = os.path.join(ctx.scratch, 'cpjw.gb')
+    gotocc(ctx, h, basejw, defs=['-DNSEG=%d' % nseg, '-DMAXSEG=%d' % max(lens), '-DJOBPATH', '-DWITNESS'])
     work = [(segs, a, e, False) for segs in itertools.product(lens, repeat=nseg) for a in aads for e in (0, 1)]
     work.append(((lens[1], lens[2], lens[3]), aads[-1], 1, True))
+    # the one-shot job entry point on the same work items (total length = sum of the segments): both must equal the same specification
+    totals = {}
+    for segs in itertools.product(lens, repeat=nseg):
+        totals.setdefault(sum(segs), segs)
+    work += [(segs, a, e, 'job') for segs in totals.values() for a in aads for e in (0, 1)]
+    work.append(((lens[1], lens[2], lens[3]), aads[-1], 0, 'jobwit'))
     flags = ['--unwinding-assertions', '--drop-unused-functions', '--no-malloc-may-fail', '--object-bits', '12']
 
     def one(w):
         segs, a, e, wit = w
-        tag = 'cp_%s_%d_%d_%d' % ('_'.join(map(str, segs)), a, e, wit)
+        tag = 'cp_%s_%d_%d_%s' % ('_'.join(map(str, segs)), a, e, wit)
         c = os.path.join(ctx.scratch, tag + '.c')
         open(c, 'w').write('const int cfg_seg[4]={%s,0}, cfg_aad=%d, cfg_enc=%d;\n' % (','.join(map(str, segs)), a, e))
         q = os.path.join(ctx.scratch, tag + '.gb')
-        rc, o, _, _ = sh(['goto-cc', basew if wit else base, c, '-o', q], timeout=120)
+        gb = {False: base, True: basew, 'job': basej, 'jobwit': basejw}[wit]
+        rc, o, _, _ = sh(['goto-cc', gb, c, '-o', q], timeout=120)
         if rc != 0:
             raise Inconclusive('link failed')
-        nm = '%sChaCha20-Poly1305 init/update x%d/finalize, segments %s, AAD %d, %s: Poly1305 stream == pad16(AAD)||pad16(CT)||lengths, output == input ^ keystream(position)' % (
-            'WITNESS ' if wit else '', nseg, list(segs), a, 'encrypt' if e else 'decrypt')
-        res, fails, log = cbmc(ctx, q, nm, unwind=100, timeout=600, expect='violated' if wit else 'discharged', trace=not wit, flags=flags)
+        if wit in ('job', 'jobwit'):
+            nm = '%s%s ChaCha20-Poly1305 single job (aead_chacha20_poly1305_sse), length %d, AAD %d, %s: Poly1305 stream == pad16(AAD)||pad16(CT)||lengths, output == input ^ keystream(position) (same specification as the streaming calls)' % (
+                'WITNESS ' if wit == 'jobwit' else '', label, sum(segs), a, 'encrypt' if e else 'decrypt')
+        else:
+            nm = '%s%s ChaCha20-Poly1305 init/update x%d/finalize, segments %s, AAD %d, %s: Poly1305 stream == pad16(AAD)||pad16(CT)||lengths, output == input ^ keystream(position)' % (
+                'WITNESS ' if wit else '', label, nseg, list(segs), a, 'encrypt' if e else 'decrypt')
+        isw = wit in (True, 'jobwit')
+        res, fails, log = cbmc(ctx, q, nm, unwind=100, timeout=600, expect='violated' if isw else 'discharged', trace=not isw, flags=flags)
         os.unlink(q)
         return w, res, fails, log
 
@@ -50,10 +70,12 @@ def run(ctx):
             ctx.inconclusive.append(str(r))
             continue
         (segs, a, e, wit), res, fails, log = r
-        if wit or res != 'violated':
+        if wit in (True, 'jobwit') or res != 'violated':
             continue
         for fid, desc in fails[:2]:
-            key = 'chapoly:%s:segs=%s:aad=%d:%s' % (fid.split('.')[-1], '-'.join(map(str, segs)), a, 'enc' if e else 'dec')
+            key = 'chapoly%s:%s:segs=%s:aad=%d:%s' % ('-job' if wit == 'job' else '', fid.split('.')[-1], '-'.join(map(str, segs)), a, 'enc' if e else 'dec')
+            ctx.violation(key, '%s %s, AAD %d, %s: %s' % ('single job of total length' if wit == 'job' else 'segmentation', sum(segs) if wit == 'job' else list(segs), a, 'encrypt' if e else 'decrypt', desc) + ' (the CBMC trace over the real chacha20_poly1305.c is the replay)', [log, h])
+            continue
             ctx.violation(key, 'segmentation %s, AAD %d, %s: %s (the CBMC trace over the real chacha20_poly1305.c is the replay)' % (list(segs), a, 'encrypt' if e else 'decrypt', desc), [log, h])
     ctx.samples.append('segments [3,16,21], AAD 13, encrypt: Poly1305 sees pad16(AAD)||pad16(CT)||le64(13)||le64(40); out[i] = in[i]^ks(i) for every i')
 
